@@ -268,10 +268,20 @@ Definition certificate (t1 t2 : qtri) (c : bary * bary) : bool :=
   forallb (fun i => Qle_bool 0 (qdot v (qsub (tv t1 i) x))) idx3 &&
   forallb (fun j => Qle_bool (qdot v (qsub (tv t2 j) y)) 0) idx3.
 
-Definition tri_dist2 (t1 t2 : qtri) : option (Q * (bary * bary)) :=
+(* any candidate generator may be used: soundness comes from the certificate *)
+Definition tri_dist2_gen (gen : qtri -> qtri -> list (bary * bary)) (t1 t2 : qtri) : option (Q * (bary * bary)) :=
   let c0 := (on_vert 0, on_vert 0) in
-  let r := best t1 t2 (candidates t1 t2) (cand_d2 t1 t2 c0, c0) in
+  let r := best t1 t2 (gen t1 t2) (cand_d2 t1 t2 c0, c0) in
   if bvalidb (fst (snd r)) && bvalidb (snd (snd r)) && certificate t1 t2 (snd r) then Some r else None.
+
+Definition tri_dist2 (t1 t2 : qtri) : option (Q * (bary * bary)) := tri_dist2_gen candidates t1 t2.
+
+(* point (as the degenerate triangle (p,p,p)) against a triangle: 7 candidates *)
+Definition cand_pt (t1 t2 : qtri) : list (bary * bary) :=
+  filter (fun c => bvalidb (fst c) && bvalidb (snd c))
+    (map (fun j => (on_vert 0, on_vert j)) idx3 ++
+     map (fun j => (on_vert 0, on_edge j (seg_param (tv t2 j) (tv t2 (nxt j)) (tv t1 0%nat)))) idx3 ++
+     match face_bary t2 (tv t1 0%nat) with Some w => [(on_vert 0, w)] | None => [] end).
 
 Definition qpt_of (p : pt) : qpt := (inject_Z (px p), inject_Z (py p), inject_Z (pz p)).
 Definition qtri_of (t : tri) : qtri := let '(a, b, c) := t in (qpt_of a, qpt_of b, qpt_of c).
@@ -299,6 +309,8 @@ Fixpoint mingap_all (l1 l2 : list (tri * box)) (acc : Q) : option Q :=
   end.
 Definition with_box (l : list tri) : list (tri * box) := map (fun t => (t, tri_box t)) l.
 Definition mingap2 (m1 m2 : list tri) (ub : Q) : option Q := mingap_all (with_box m1) (with_box m2) ub.
+Definition pt_tri_dist2 (p : pt) (t : tri) : option Q :=
+  match tri_dist2_gen cand_pt (qtri_of (p, p, p)) (qtri_of t) with Some (d, _) => Some d | None => None end.
 Local Close Scope Q_scope.
 
 (* ------------------------------------------------------------------ 4 -- *)
